@@ -37,6 +37,19 @@ static inline uint8_t read_byte_raw(thrift_decoder_t* dec) {
     return b;
 }
 
+/* Skip one element of a list, set or map.  Unlike struct fields, whose boolean
+ * value lives in the field header, boolean elements occupy one byte each. */
+static void skip_element(thrift_decoder_t* dec, thrift_type_t type) {
+    if (dec->status != CARQUET_OK) {
+        return;
+    }
+    if (type == THRIFT_TYPE_TRUE || type == THRIFT_TYPE_FALSE) {
+        (void)read_byte_raw(dec);
+        return;
+    }
+    thrift_skip(dec, type);
+}
+
 /* ============================================================================
  * Decoder Lifecycle
  * ============================================================================
@@ -412,7 +425,7 @@ void thrift_skip(thrift_decoder_t* dec, thrift_type_t type) {
             int32_t count;
             thrift_read_list_begin(dec, &elem_type, &count);
             for (int32_t i = 0; i < count && dec->status == CARQUET_OK; i++) {
-                thrift_skip(dec, elem_type);
+                skip_element(dec, elem_type);
             }
             break;
         }
@@ -422,8 +435,8 @@ void thrift_skip(thrift_decoder_t* dec, thrift_type_t type) {
             int32_t count;
             thrift_read_map_begin(dec, &key_type, &value_type, &count);
             for (int32_t i = 0; i < count && dec->status == CARQUET_OK; i++) {
-                thrift_skip(dec, key_type);
-                thrift_skip(dec, value_type);
+                skip_element(dec, key_type);
+                skip_element(dec, value_type);
             }
             break;
         }
